@@ -14,9 +14,11 @@ package main
 
 import (
 	"context"
+	"encoding/json"
 	"flag"
 	"fmt"
 	"math/rand"
+	"os"
 	"sync"
 	"time"
 
@@ -605,6 +607,7 @@ func main() {
 	npairs := flag.Int("pairs", 6, "pairs of real sessions over a lossy link")
 	chaosMs := flag.Int("chaos", 2500, "duration of the lossy phase of a pair in ms")
 	workers := flag.Int("workers", 8, "concurrent histories")
+	scn := flag.String("scn", "", "histories generated by TLC (BFDGen.tla): ndjson {steps: [[state,your,my,mult,ver,multipoint,poll,expire]...], rand: bool}; replaces -len / -rand")
 	flag.Parse()
 	bfd.VerifTracer = tracer
 	w := vt.NewWriter(*out)
@@ -626,14 +629,51 @@ func main() {
 			gen(append(prefix, x), n-1)
 		}
 	}
-	gen(nil, *maxLen)
-	for range hs {
+	rng := vt.Rand(16)
+	if *scn == "" {
+		gen(nil, *maxLen)
+	} else {
+		f, err := os.Open(*scn)
+		if err != nil {
+			vt.Fatal("open %s: %v", *scn, err)
+		}
+		dec := json.NewDecoder(f)
+		for dec.More() {
+			var rec struct {
+				Steps [][]int `json:"steps"`
+				Rand  bool    `json:"rand"`
+			}
+			if err := dec.Decode(&rec); err != nil {
+				vt.Fatal("scenario file: %v", err)
+			}
+			h := make([]sym, len(rec.Steps))
+			for j, a := range rec.Steps {
+				if len(a) != 8 {
+					vt.Fatal("scenario symbol needs 8 fields")
+				}
+				h[j] = sym{state: a[0], your: a[1], my: a[2], mult: a[3], ver: a[4], multipoint: a[5] == 1, poll: a[6] == 1, expire: a[7] == 1}
+				// seeded variation of the announced detection time in the random histories: 20 .. 600 ms
+				if rec.Rand && h[j].expire && rng.Intn(4) == 0 {
+					h[j].mult = 1 + rng.Intn(4)
+					h[j].dtxms = []int{20, 50, 150}[rng.Intn(3)]
+				}
+			}
+			hs = append(hs, h)
+			if rec.Rand {
+				cfgs = append(cfgs, scfg{lmult: []int{1, 2, 3, 5}[rng.Intn(4)], rxms: 2})
+			} else {
+				cfgs = append(cfgs, scfg{lmult: 3, rxms: 2})
+			}
+		}
+		f.Close()
+		*nrand = 0
+	}
+	for len(cfgs) < len(hs) {
 		cfgs = append(cfgs, scfg{lmult: 3, rxms: 2})
 	}
 	th, tc := timedHistories()
 	hs = append(hs, th...)
 	cfgs = append(cfgs, tc...)
-	rng := vt.Rand(16)
 	for i := 0; i < *nrand; i++ {
 		n := 5 + rng.Intn(25)
 		h := make([]sym, n)
